@@ -1,6 +1,5 @@
 /-
-C16 — no token fusion, structural part 2: the pieces of every well-formed expression without a
-unary minus directly in front of a negative literal are `separated` (`separated_pieces`).
+C16 — no token fusion, structural part 2: the pieces of every well-formed expression are `separated` (`separated_pieces`).
 -/
 import FfcxProofs.Lemmas.FormatSep
 import FfcxProofs.Lemmas.FormatRTAll
@@ -235,19 +234,19 @@ theorem sp_negnum {cs : List Char} (h : numShape cs = true) : SP [pp .minus, .t 
     ⟨_, rfl, by simp [isFirstNM, tokOK_num_ofList h]⟩
 
 /-- pieces of a real number text: `[num]`, or `[-, num]` -/
-theorem numPieces_real (x : Rat) (h : numShape (fmtFloat16 (if x < 0 then -x else x)) = true) :
-    (x < 0 ∧ numPieces (fmtFloat16 x) = [pp .minus, .t (.num (String.ofList (fmtFloat16 (-x))))]
-        ∧ numShape (fmtFloat16 (-x)) = true)
-    ∨ (¬ x < 0 ∧ numPieces (fmtFloat16 x) = [.t (.num (String.ofList (fmtFloat16 x)))]
-        ∧ numShape (fmtFloat16 x) = true) := by
+theorem numPieces_real (x : Rat) (h : numShape (reprFloat (if x < 0 then -x else x)) = true) :
+    (x < 0 ∧ numPieces (reprFloat x) = [pp .minus, .t (.num (String.ofList (reprFloat (-x))))]
+        ∧ numShape (reprFloat (-x)) = true)
+    ∨ (¬ x < 0 ∧ numPieces (reprFloat x) = [.t (.num (String.ofList (reprFloat x)))]
+        ∧ numShape (reprFloat x) = true) := by
   by_cases hx : x < 0
   · left
     simp only [hx, if_true] at h
     have h0 : x ≠ 0 := by grind
     have h1 : ¬ (-x < 0) := by grind
     have h2 : -x ≠ 0 := by grind
-    have e1 : fmtFloat16 x = '-' :: fmtPos16 (-x) := by simp [fmtFloat16, h0, hx]
-    have e2 : fmtFloat16 (-x) = fmtPos16 (-x) := by simp [fmtFloat16, h1, h2]
+    have e1 : reprFloat x = '-' :: reprPos true (-x) := by simp [reprFloat, h0, hx]
+    have e2 : reprFloat (-x) = reprPos true (-x) := by simp [reprFloat, h1, h2]
     refine ⟨hx, ?_, h⟩
     rw [e1, e2]; rfl
   · right
@@ -255,8 +254,8 @@ theorem numPieces_real (x : Rat) (h : numShape (fmtFloat16 (if x < 0 then -x els
     obtain ⟨c, r, hcr, hc⟩ := numShape_head h
     exact ⟨hx, by rw [hcr, numPieces_pos hc], h⟩
 
-theorem sp_numPieces_real (x : Rat) (h : numShape (fmtFloat16 (if x < 0 then -x else x)) = true) :
-    SP (numPieces (fmtFloat16 x)) := by
+theorem sp_numPieces_real (x : Rat) (h : numShape (reprFloat (if x < 0 then -x else x)) = true) :
+    SP (numPieces (reprFloat x)) := by
   rcases numPieces_real x h with ⟨_, e, hs⟩ | ⟨_, e, hs⟩
   · rw [e]; exact sp_negnum hs
   · rw [e]; exact sp_num hs
@@ -267,8 +266,55 @@ theorem sp_numPieces_real (x : Rat) (h : numShape (fmtFloat16 (if x < 0 then -x 
 /-- the separation invariant of an expression's pieces -/
 structure SE (sc : Scalar) (e : Expr) : Prop where
   sp : SP (piecesC sc e)
-  /-- a non-negative-literal primary/postfix expression does not start with a prefix operator -/
-  nm : e.prec < 3 → isNegLit e = false → ∃ t, firstP (piecesC sc e) = some t ∧ isFirstNM t = true
+
+/-- a separated text that does not start with the character `-` does not start with the token `-` -/
+theorem first_not_minus {ps : List Piece} (h : SP ps) (hs : startsWith '-' ps = false) :
+    ∃ t, firstP ps = some t ∧ isFirst t = true ∧ t ≠ .p .minus := by
+  obtain ⟨t, ht, ht'⟩ := h.first
+  refine ⟨t, ht, ht', ?_⟩
+  intro hm
+  subst hm
+  cases ps with
+  | nil => simp [firstP] at ht
+  | cons q qs =>
+    cases q with
+    | ws w => simp [firstP] at ht
+    | t a =>
+      simp only [firstP, Option.some.injEq] at ht
+      subst ht
+      simp [startsWith, render, Tok.text, P.text] at hs
+
+theorem sepTok_minus_first {y : Tok} (hy : isFirst y = true) (hne : y ≠ .p .minus) :
+    sepTok (.p .minus) y = true := by
+  by_cases hnm : isFirstNM y = true
+  · exact sepTok_pend_nm (p := '-') rfl (by decide) (by decide) hnm
+  · simp only [isFirst, Bool.and_eq_true] at hy
+    cases y with
+    | num s => simp [isFirstNM, hy.1] at hnm
+    | id s => simp [isFirstNM, hy.1] at hnm
+    | p q =>
+      have : q = .minus ∨ q = .bang ∨ q = .lpar := by
+        have := hy.2; cases q <;> simp at this <;> simp
+      rcases this with rfl | rfl | rfl
+      · exact absurd rfl hne
+      · rfl
+      · rfl
+    | bad c => simp at hy
+    | newline => simp at hy
+    | indent => simp at hy
+    | dedent => simp at hy
+
+/-- a prefix operator token in front of a separated text it may touch -/
+theorem sp_prefix' {q : P} (hf : isFirst (.p q) = true) {ps} (h : SP ps)
+    (hbr : ∀ t, firstP ps = some t → sepTok (.p q) t = true) : SP (pp q :: ps) := by
+  obtain ⟨l, hl, hl'⟩ := h.last
+  refine ⟨?_, ⟨_, rfl, hf⟩, ⟨l, ?_, hl'⟩⟩
+  · refine separated_append (a := [pp q]) (by simp [separated, pp, tokOK]) h.sep ?_
+    intro x y hx hy
+    simp only [lastP, pp, Option.some.injEq] at hx; subst hx
+    exact hbr y hy
+  · have : pp q :: ps = [pp q] ++ ps := rfl
+    rw [this, lastP_append_ne _ h.ne_nil]; exact hl
 
 theorem validIdent_tokOK {s : String} (h : validIdent s = true) : tokOK (.id s) = true := by
   simp only [validIdent] at h
@@ -297,13 +343,8 @@ theorem sepTok_bang_first {y : Tok} (hy : isFirst y = true) : sepTok (.p .bang) 
 
 theorem se_litF {sc re im} (hwf : wfC sc (.litF re im false) = true) : SE sc (.litF re im false) := by
   simp only [wfC, litShapeOK, Bool.and_eq_true, Bool.false_eq_true, if_false] at hwf
-  have hp : piecesC sc (.litF re im false) = numPieces (fmtFloat16 re) := by simp [piecesC, cNumber]
-  refine ⟨by rw [hp]; exact sp_numPieces_real re hwf.1, ?_⟩
-  intro _ hnl
-  simp only [isNegLit, decide_eq_false_iff_not] at hnl
-  rcases numPieces_real re hwf.1 with ⟨h, _, _⟩ | ⟨_, e, hs⟩
-  · exact absurd h hnl
-  · exact ⟨_, by rw [hp, e]; rfl, by simp [isFirstNM, tokOK_num_ofList hs]⟩
+  have hp : piecesC sc (.litF re im false) = numPieces (reprFloat re) := by simp [piecesC, cNumber]
+  exact ⟨by rw [hp]; exact sp_numPieces_real re hwf.1⟩
 
 theorem se_litI {sc v} (hwf : wfC sc (.litI v) = true) : SE sc (.litI v) := by
   simp only [wfC, litShapeOK] at hwf
@@ -315,20 +356,17 @@ theorem se_litI {sc v} (hwf : wfC sc (.litI v) = true) : SE sc (.litI v) := by
       simp only [fmtInt, hneg, this, if_true, if_false]
       congr 2; omega
     have e2 : numPieces (fmtInt v) = [pp .minus, .t (.num (String.ofList (fmtInt (-v))))] := by rw [e1]; rfl
-    refine ⟨by rw [hp, e2]; exact sp_negnum hwf, ?_⟩
-    intro _ hnl; simp [isNegLit, hneg] at hnl
+    exact ⟨by rw [hp, e2]; exact sp_negnum hwf⟩
   · simp only [hneg, if_false] at hwf
     obtain ⟨c, r, hcr, hc⟩ := numShape_head hwf
     have e2 : numPieces (fmtInt v) = [.t (.num (String.ofList (fmtInt v)))] := by rw [hcr, numPieces_pos hc]
-    refine ⟨by rw [hp, e2]; exact sp_num hwf, ?_⟩
-    intro _ _
-    exact ⟨_, by rw [hp, e2]; rfl, by simp [isFirstNM, tokOK_num_ofList hwf]⟩
+    exact ⟨by rw [hp, e2]; exact sp_num hwf⟩
 
 theorem se_complex {sc re im} (hwf : wfC sc (.litF re im true) = true) : SE sc (.litF re im true) := by
   simp only [wfC, litShapeOK, Bool.and_eq_true, if_true] at hwf
   have hre := sp_numPieces_real re hwf.1
   have him := sp_numPieces_real im hwf.2
-  have hmid : SP (numPieces (fmtFloat16 re) ++ [pp .plus, .t (.id "I"), pp .star] ++ numPieces (fmtFloat16 im)) := by
+  have hmid : SP (numPieces (reprFloat re) ++ [pp .plus, .t (.id "I"), pp .star] ++ numPieces (reprFloat im)) := by
     refine sp_app3 hre him (by decide) ?_ ?_ ?_
     · intro x y _ hx hy
       simp only [firstP, pp, Option.some.injEq] at hy; subst hy
@@ -340,62 +378,58 @@ theorem se_complex {sc re im} (hwf : wfC sc (.litF re im true) = true) : SE sc (
       · rw [e] at hfy; simp only [firstP, Option.some.injEq] at hfy; subst hfy
         exact sepTok_pend_nm stTok_star (by decide) (by decide) (by simp [isFirstNM, tokOK_num_ofList hs])
     · intro h; simp at h
-  have hp : piecesC sc (.litF re im true) = pp .lpar :: (numPieces (fmtFloat16 re) ++ [pp .plus, .t (.id "I"), pp .star]
-      ++ numPieces (fmtFloat16 im)) ++ [pp .rpar] := by simp [piecesC, cNumber]
-  refine ⟨by rw [hp]; exact sp_paren hmid, ?_⟩
-  intro _ _
-  exact ⟨.p .lpar, by rw [hp]; rfl, rfl⟩
+  have hp : piecesC sc (.litF re im true) = pp .lpar :: (numPieces (reprFloat re) ++ [pp .plus, .t (.id "I"), pp .star]
+      ++ numPieces (reprFloat im)) ++ [pp .rpar] := by simp [piecesC, cNumber]
+  exact ⟨by rw [hp]; exact sp_paren hmid⟩
 
 theorem se_sym {sc n dt} (hwf : wfC sc (.sym n dt) = true) : SE sc (.sym n dt) := by
   simp only [wfC] at hwf
   have hok := validIdent_tokOK hwf
   have hp : piecesC sc (.sym n dt) = [.t (.id n)] := by simp [piecesC]
-  refine ⟨by rw [hp]; exact ⟨by simp [separated, hok], ⟨_, rfl, by simp [isFirst, hok]⟩, ⟨_, rfl, by simp [isLast, hok]⟩⟩, ?_⟩
-  intro _ _
-  exact ⟨_, by rw [hp]; rfl, by simp [isFirstNM, hok]⟩
+  exact ⟨by rw [hp]; exact ⟨by simp [separated, hok], ⟨_, rfl, by simp [isFirst, hok]⟩, ⟨_, rfl, by simp [isLast, hok]⟩⟩⟩
 
-theorem parenIf_first_nm {ps : List Piece} : ∃ t, firstP (parenIf true ps) = some t ∧ isFirstNM t = true :=
-  ⟨.p .lpar, rfl, rfl⟩
-
-theorem se_neg {sc a} (ha : SE sc a) (hnf : isNegLit a = false) : SE sc (.neg a) := by
-  have hp : piecesC sc (.neg a) = pp .minus :: parenIf (decide (a.prec ≥ 3)) (piecesC sc a) := by simp [piecesC]
-  refine ⟨?_, fun h => by simp [Expr.prec] at h⟩
+theorem se_neg {sc a} (ha : SE sc a) : SE sc (.neg a) := by
+  have hp : piecesC sc (.neg a) = pp .minus :: parenIf (decide ((precF a) ≥ 3) || startsWith '-' (piecesC sc a)) (piecesC sc a) := by
+    simp [piecesC]
+  refine ⟨?_⟩
   rw [hp]
-  refine sp_prefix stTok_minus (by decide) (by decide) rfl (sp_parenIf _ ha.sp) ?_
-  by_cases hpa : a.prec ≥ 3
-  · simp only [hpa, decide_true]; exact parenIf_first_nm
-  · simp only [hpa, decide_false, parenIf]
-    exact ha.nm (by omega) hnf
+  refine sp_prefix' rfl (sp_parenIf _ ha.sp) ?_
+  intro t ht
+  cases hpar : (decide ((precF a) ≥ 3) || startsWith '-' (piecesC sc a)) with
+  | true =>
+    rw [hpar] at ht
+    have ht2 : some (Tok.p P.lpar) = some t := ht
+    cases ht2; rfl
+  | false =>
+    rw [hpar] at ht
+    simp only [parenIf, Bool.false_eq_true, if_false] at ht
+    simp only [Bool.or_eq_false_iff] at hpar
+    obtain ⟨t', ht', hf', hne⟩ := first_not_minus ha.sp hpar.2
+    rw [ht'] at ht; cases ht
+    exact sepTok_minus_first hf' hne
 
 theorem se_not {sc a} (ha : SE sc a) : SE sc (.not a) := by
-  have hp : piecesC sc (.not a) = pp .bang :: parenIf (decide (a.prec ≥ 3)) (piecesC sc a) := by simp [piecesC]
-  refine ⟨?_, fun h => by simp [Expr.prec] at h⟩
+  have hp : piecesC sc (.not a) = pp .bang :: parenIf (decide ((precF a) ≥ 3) || startsWith '!' (piecesC sc a)) (piecesC sc a) := by
+    simp [piecesC]
+  refine ⟨?_⟩
   rw [hp]
-  have hX := sp_parenIf (decide (a.prec ≥ 3)) ha.sp
+  have hX := sp_parenIf (decide ((precF a) ≥ 3) || startsWith '!' (piecesC sc a)) ha.sp
+  refine sp_prefix' rfl hX ?_
+  intro t ht
   obtain ⟨f, hf, hf'⟩ := hX.first
-  obtain ⟨l, hl, hl'⟩ := hX.last
-  refine ⟨?_, ⟨_, rfl, rfl⟩, ⟨l, ?_, hl'⟩⟩
-  · refine separated_append (a := [pp .bang]) (by decide) hX.sep ?_
-    intro x y hx hy
-    simp only [lastP, pp, Option.some.injEq] at hx; subst hx
-    have hy' : firstP (parenIf (decide (a.prec ≥ 3)) (piecesC sc a)) = some y := hy
-    rw [hf] at hy'; cases hy'
-    exact sepTok_bang_first hf'
-  · have : pp .bang :: parenIf (decide (a.prec ≥ 3)) (piecesC sc a) = [pp .bang] ++ parenIf (decide (a.prec ≥ 3)) (piecesC sc a) := rfl
-    rw [this, lastP_append_ne _ hX.ne_nil]; exact hl
+  rw [hf] at ht; cases ht
+  exact sepTok_bang_first hf'
 
 theorem se_bin {sc op a b} (ha : SE sc a) (hb : SE sc b) : SE sc (.bin op a b) := by
-  have hp : piecesC sc (.bin op a b) = parenIf (decide (a.prec ≥ op.prec)) (piecesC sc a) ++ [sp, pp (opTok op), sp]
-      ++ parenIf (decide (b.prec ≥ op.prec)) (piecesC sc b) := by simp [piecesC]
-  refine ⟨by rw [hp]; exact sp_mid_ws _ (sp_parenIf _ ha.sp) (sp_parenIf _ hb.sp), ?_⟩
-  intro h; have := binop_prec_range op; simp only [Expr.prec] at h; omega
+  have hp : piecesC sc (.bin op a b) = parenIf (decide ((precF a) ≥ op.prec)) (piecesC sc a) ++ [sp, pp (opTok op), sp]
+      ++ parenIf (decide ((precF b) ≥ op.prec)) (piecesC sc b) := by simp [piecesC]
+  exact ⟨by rw [hp]; exact sp_mid_ws _ (sp_parenIf _ ha.sp) (sp_parenIf _ hb.sp)⟩
 
 theorem se_cond {sc c t f} (hc : SE sc c) (ht : SE sc t) (hf : SE sc f) : SE sc (.cond c t f) := by
-  have hp : piecesC sc (.cond c t f) = (parenIf (decide (c.prec ≥ 13)) (piecesC sc c) ++ [sp, pp .quest, sp]
-      ++ parenIf (decide (t.prec ≥ 13)) (piecesC sc t)) ++ [sp, pp .colon, sp]
-      ++ parenIf (decide (f.prec ≥ 13)) (piecesC sc f) := by simp [piecesC]
-  refine ⟨by rw [hp]; exact sp_mid_ws _ (sp_mid_ws _ (sp_parenIf _ hc.sp) (sp_parenIf _ ht.sp)) (sp_parenIf _ hf.sp), ?_⟩
-  intro h; simp [Expr.prec] at h
+  have hp : piecesC sc (.cond c t f) = (parenIf (decide ((precF c) ≥ 13)) (piecesC sc c) ++ [sp, pp .quest, sp]
+      ++ parenIf (decide ((precF t) ≥ 13)) (piecesC sc t)) ++ [sp, pp .colon, sp]
+      ++ parenIf (decide ((precF f) ≥ 13)) (piecesC sc f) := by simp [piecesC]
+  exact ⟨by rw [hp]; exact sp_mid_ws _ (sp_mid_ws _ (sp_parenIf _ hc.sp) (sp_parenIf _ ht.sp)) (sp_parenIf _ hf.sp)⟩
 
 theorem sp_nary {sc} (o : P) (p : Nat) (args : List Expr) (hne : args ≠ []) (hall : ∀ x ∈ args, SE sc x) :
     SP (joinP [sp, pp o, sp] (piecesNary sc p args)) := by
@@ -446,9 +480,7 @@ theorem se_call {sc f dt args} (hid : validIdent (cMathName sc dt f) = true) (hn
   have hp : piecesC sc (.call f dt args) = (.t (.id (cMathName sc dt f)) :: pp .lpar :: joinP [pp .comma, sp] (piecesList sc args))
       ++ [pp .rpar] := by simp [piecesC]
   have h1 := sp_head (cMathName sc dt f) .lpar '(' rfl rfl stTok_lpar (validIdent_tokOK hid) hJ
-  refine ⟨by rw [hp]; exact sp_snoc .rpar (Or.inl rfl) h1, ?_⟩
-  intro _ _
-  exact ⟨_, by rw [hp]; rfl, by simp [isFirstNM, validIdent_tokOK hid]⟩
+  exact ⟨by rw [hp]; exact sp_snoc .rpar (Or.inl rfl) h1⟩
 
 theorem se_idx {sc arr dt ix} (hid : validIdent arr = true) (hne : ix ≠ [])
     (hall : ∀ x ∈ ix, SP (piecesC sc x)) : SE sc (.idx arr dt ix) := by
@@ -466,25 +498,14 @@ theorem se_idx {sc arr dt ix} (hid : validIdent arr = true) (hne : ix ≠ [])
   have hp : piecesC sc (.idx arr dt ix) = (.t (.id arr) :: pp .lbrack :: joinP [pp .rbrack, pp .lbrack] (piecesList sc ix))
       ++ [pp .rbrack] := by simp [piecesC]
   have h1 := sp_head arr .lbrack '[' rfl rfl stTok_lbrack (validIdent_tokOK hid) hJ
-  refine ⟨by rw [hp]; exact sp_snoc .rbrack (Or.inr rfl) h1, ?_⟩
-  intro _ _
-  exact ⟨_, by rw [hp]; rfl, by simp [isFirstNM, validIdent_tokOK hid]⟩
+  exact ⟨by rw [hp]; exact sp_snoc .rbrack (Or.inr rfl) h1⟩
 
-theorem noFuseL_mem {x : Expr} {l : List Expr} (hl : noFuseL l = true) (h : x ∈ l) : noFuse x = true := by
-  induction l with
-  | nil => cases h
-  | cons a as ih =>
-    simp only [noFuseL, Bool.and_eq_true] at hl
-    cases h with
-    | head => exact hl.1
-    | tail _ h' => exact ih hl.2 h'
-
-theorem se_all (sc : Scalar) : ∀ n e, esize e ≤ n → wfC sc e = true → noFuse e = true → SE sc e := by
+theorem se_all (sc : Scalar) : ∀ n e, esize e ≤ n → wfC sc e = true → SE sc e := by
   intro n
   induction n with
   | zero => intro e h; cases e <;> simp [esize] at h
   | succ n ih =>
-    intro e hsz hwf hnf
+    intro e hsz hwf
     cases e with
     | litF re im c =>
       cases c with
@@ -492,56 +513,44 @@ theorem se_all (sc : Scalar) : ∀ n e, esize e ≤ n → wfC sc e = true → no
       | true => exact se_complex hwf
     | litI v => exact se_litI hwf
     | sym nm dt => exact se_sym hwf
-    | mi s z gi => simp [wfC] at hwf
+    | mi s z gi =>
+      simp only [esize] at hsz; simp only [wfC] at hwf
+      have := (ih gi (by omega) hwf).sp
+      exact ⟨by simpa [piecesC] using this⟩
     | neg a =>
       simp only [esize] at hsz; simp only [wfC] at hwf
-      simp only [noFuse, Bool.and_eq_true, Bool.not_eq_true'] at hnf
-      exact se_neg (ih a (by omega) hwf hnf.2) hnf.1
+      exact se_neg (ih a (by omega) hwf)
     | not a =>
-      simp only [esize] at hsz; simp only [wfC] at hwf; simp only [noFuse] at hnf
-      exact se_not (ih a (by omega) hwf hnf)
+      simp only [esize] at hsz; simp only [wfC] at hwf
+      exact se_not (ih a (by omega) hwf)
     | bin op a b =>
       simp only [esize] at hsz; simp only [wfC, Bool.and_eq_true] at hwf
-      simp only [noFuse, Bool.and_eq_true] at hnf
-      exact se_bin (ih a (by omega) hwf.1 hnf.1) (ih b (by omega) hwf.2 hnf.2)
+      exact se_bin (ih a (by omega) hwf.1) (ih b (by omega) hwf.2)
     | sum args =>
       simp only [esize] at hsz; simp only [wfC, Bool.and_eq_true, Bool.not_eq_true', List.isEmpty_eq_false_iff] at hwf
-      simp only [noFuse] at hnf
       have hall : ∀ x ∈ args, SE sc x := fun x hx =>
-        ih x (by have := esize_mem hx; omega) (wfLC_mem hwf.2 hx) (noFuseL_mem hnf hx)
-      refine ⟨by simpa [piecesC] using sp_nary .plus 5 args hwf.1 hall, fun h => by simp [Expr.prec] at h⟩
+        ih x (by have := esize_mem hx; omega) (wfLC_mem hwf.2 hx)
+      exact ⟨by simpa [piecesC] using sp_nary .plus 5 args hwf.1 hall⟩
     | prod args =>
       simp only [esize] at hsz; simp only [wfC, Bool.and_eq_true, Bool.not_eq_true', List.isEmpty_eq_false_iff] at hwf
-      simp only [noFuse] at hnf
       have hall : ∀ x ∈ args, SE sc x := fun x hx =>
-        ih x (by have := esize_mem hx; omega) (wfLC_mem hwf.2 hx) (noFuseL_mem hnf hx)
-      refine ⟨by simpa [piecesC] using sp_nary .star 4 args hwf.1 hall, fun h => by simp [Expr.prec] at h⟩
+        ih x (by have := esize_mem hx; omega) (wfLC_mem hwf.2 hx)
+      exact ⟨by simpa [piecesC] using sp_nary .star 4 args hwf.1 hall⟩
     | call f dt args =>
       simp only [esize] at hsz; simp only [wfC, Bool.and_eq_true, Bool.not_eq_true', List.isEmpty_eq_false_iff] at hwf
-      simp only [noFuse] at hnf
       exact se_call hwf.1.1 hwf.1.2 (fun x hx =>
-        (ih x (by have := esize_mem hx; omega) (wfLC_mem hwf.2 hx) (noFuseL_mem hnf hx)).sp)
+        (ih x (by have := esize_mem hx; omega) (wfLC_mem hwf.2 hx)).sp)
     | idx arr dt ix =>
       simp only [esize] at hsz; simp only [wfC, Bool.and_eq_true, Bool.not_eq_true', List.isEmpty_eq_false_iff] at hwf
-      simp only [noFuse] at hnf
-      refine se_idx hwf.1.1 hwf.1.2 (fun x hx => ?_)
-      have hsx := esize_mem hx
-      have hnx := noFuseL_mem hnf hx
-      rcases wfIxC_mem hwf.2 hx with ⟨s, z, gi, rfl, hgi⟩ | hx'
-      · simp only [esize] at hsx
-        simp only [noFuse] at hnx
-        have := (ih gi (by omega) hgi hnx).sp
-        simpa [piecesC] using this
-      · exact (ih x (by omega) hx' hnx).sp
+      exact se_idx hwf.1.1 hwf.1.2 (fun x hx =>
+        (ih x (by have := esize_mem hx; omega) (wfLC_mem hwf.2 hx)).sp)
     | cond c t f =>
       simp only [esize] at hsz; simp only [wfC, Bool.and_eq_true] at hwf
-      simp only [noFuse, Bool.and_eq_true] at hnf
-      exact se_cond (ih c (by omega) hwf.1.1 hnf.1.1) (ih t (by omega) hwf.1.2 hnf.1.2) (ih f (by omega) hwf.2 hnf.2)
+      exact se_cond (ih c (by omega) hwf.1.1) (ih t (by omega) hwf.1.2) (ih f (by omega) hwf.2)
 
-/-- **No token fusion (structural).** The pieces of a well-formed expression without a unary
-    minus directly in front of a negative literal are separated. -/
-theorem separated_pieces (sc : Scalar) (e : Expr) (hwf : wfC sc e = true) (hnf : noFuse e = true) :
+/-- **No token fusion (structural).** The pieces of every well-formed expression are separated. -/
+theorem separated_pieces (sc : Scalar) (e : Expr) (hwf : wfC sc e = true) :
     separated (piecesC sc e) = true :=
-  (se_all sc (esize e) e (Nat.le_refl _) hwf hnf).sp.sep
+  (se_all sc (esize e) e (Nat.le_refl _) hwf).sp.sep
 
 end Ffcx.LNodes.Fmt
